@@ -984,7 +984,7 @@ def gen(tier, mode, take):
         yield from one("shift", dict(type=ty), dq())
     # ---------------- smooth
     yield from one("smooth", {}, full(3))
-    yield from one("smooth", {}, full(4))
+    yield from one("smooth", {}, full(4) if T else full(4, ["0", "1", "2"]))
     yield from one("smooth", {}, d7(3 if T else 2))
     # ---------------- extrapolate
     FN = ("constant", "linear", "quadratic", "exponential", "sasha", "periodic")
@@ -1013,7 +1013,7 @@ def gen(tier, mode, take):
     for k, o in enumerate(BO):
         yield from one("boltzmann", o, dev(B10[0], B10[1], 2 if (T or k in (0, 1, 3)) else 1))
     for o in ((BO[:2] + BO[3:]) if T else BO[4:]):   # no angle type: the 13-row grid ends beyond pi
-        yield from one("boltzmann", o, dev(B13[0], B13[1], 2))
+        yield from one("boltzmann", o, dev(B13[0], B13[1], 2 if T else 1))
     if T:
         yield from one("boltzmann", dict(kbT="2.49", type="non-bonded", min="1e-12"), dev(B13[0], B13[1], 2))
     # ---------------- update_ibi_pot : (target rdf, current rdf, flags of the current potential)
@@ -1097,8 +1097,8 @@ RULE = ("Perl table scripts read from the source tree, executed unmodified (batc
         "Alphabet: y in {0,1e-11,0.5,1,2}, flag in {i,o,u}, uniform grids x=0.25+0.25k (and 0+0.5k where r=0 matters). "
         "Bound: ALL 3-row tables (3375) for every enumerated option combination of table_linearop(a,b,--withflag,--on-x,"
         "--with-errors), table_scale, table_integrate(--from,--sphere,--with-S/--kbT,--with-errors), potential_shift(all types), "
-        "table_smooth, table_extrapolate(6 functions, 3 regions, --avgpoints, --no-flagupdate, --curvature); ALL 4-row tables (50625) "
-        "for table_smooth (thorough: also for the main options of the others); 7-row tables = all tables within 2 cells "
+        "table_smooth, table_extrapolate(6 functions, 3 regions, --avgpoints, --no-flagupdate, --curvature); thorough: ALL 4-row tables (50625) "
+        "for table_smooth and the main options of the others (quick: 4-row tables over {0,1,2} for table_smooth); 7-row tables = all tables within 2 cells "
         "(3 for smooth/thorough) of two base tables; dist_boltzmann_invert (needs >=10 valid points) on all 10- and 13-row tables "
         "within 2 cells of a base, kT in {1,2.49}, 4 types, --min; update_ibi_pot on all (target,current,potential-flag) triples of "
         "3 rows (quick: reduced target alphabets / potential flags {i,u}^3+2) and 7-row triples within 1 (thorough 2) rows of a base; "
